@@ -44,6 +44,7 @@ def datasets(tier):
         {'family': 'ugrid', 'mesh': 'M4', 'supplied': ['edge_node']},
         {'family': 'cf1d', 'ny': 2, 'nx': 3, 'declare_reversed': True},
         {'family': 'shoc_standard', 'nj': 3, 'ni': 2, 'declare_reversed': True},
+        {'family': 'ugrid', 'mesh': 'M11'},
     ]
     if tier == 'thorough':
         specs += [
@@ -120,7 +121,8 @@ def run_case(case):
             if not good:
                 continue
             # wind back: default (last), by axis, by name
-            variants = [('last', {}), ('axis', {'axis': len(rest)}), ('name', {'linear_dimension': expected_name})]
+            variants = [('last', {}), ('axis', {'axis': len(rest)}), ('name', {'linear_dimension': expected_name}),
+                        ('numpy-axis', {'axis': np.int64(len(rest))}), ('numpy-axis', {'axis': np.intp(len(rest))})]
             if linear_name is not None:
                 variants.append(('neg-axis', {'axis': -1}))
             for vlabel, vkwargs in variants:
@@ -175,7 +177,7 @@ def run_case(case):
             want_dims = order[:position] + grid_dims + order[position:]
             want_shape = tuple({**sizes}[d] for d in want_dims)
             want = y.values.reshape(want_shape)
-            variants = [('axis', {'axis': position}), ('name', {'linear_dimension': 'index'})]
+            variants = [('axis', {'axis': position}), ('name', {'linear_dimension': 'index'}), ('numpy-axis', {'axis': np.int32(position)})]
             if position == len(order):
                 variants.append(('last', {}))
             else:
